@@ -957,7 +957,7 @@ fn run_inner<P: Property>(args: &[String]) -> Result<i32, String> {
         "assumptions": [
             "std::io adapter types and core's decimal<->float conversion are correct (trusted base)",
             "the reference decoder is conservative: it accepts only inside the grammar the property spells out and otherwise leaves only the totality and shape oracles on",
-            "File::open/File::create are not exercised; the wrappers' compositions are",
+            if crate::seams::FILE_SEAM { "std::fs::File is replaced by the File seam's stand-in in wrapper-stack runs (open/create can fail, reads and writes go to the simulated source/sink); the real std::fs::File is exercised only fault-free (oracle W)" } else { "File::open/File::create are not exercised; the wrappers' compositions are" },
             "sampling, not enumeration: a clean batch is evidence, not proof"
         ],
         "wall_s": (wall * 1000.0).round() / 1000.0,
